@@ -141,6 +141,9 @@ class AndersonCD(BaseSolver):
 
             opt[unpen] = np.inf  # always include unpenalized features
             opt[penalty.generalized_support(w[:n_features])] = np.inf
+            # an unpenalized feature can be zero (positivity constraint): leave room
+            # for at least one candidate besides the features that are forced in
+            ws_size = max(ws_size, min(np.isinf(opt).sum() + 1, n_features))
 
             # here use topk instead of np.argsort(opt)[-ws_size:]
             ws = np.argpartition(opt, -ws_size)[-ws_size:]
